@@ -1,37 +1,47 @@
 import PoxModel.Proofs.FlowModRefine
 /-! # C04 — the flow table evolves as the OpenFlow 1.0 FLOW_MOD / timeout state machine
 
-Property theorems only.  Model: `Model/FlowMod.lean` (`step`, `run` — the flow-mod handlers, `rx_packet`'s table part, the expiry
-sweep and the flow-removed emission of the software switch, as the code stands at `/repo` HEAD *with the proposed repair D23
-applied*: `check_for_overlapping_entry` tests the standard's overlap, `/verif/fixes/D23_check_overlap_true_overlap.diff`); standard: `Spec/OF10Table.lean`
-(§4.6 / §4.7) on top of `Spec/OF10Match.lean` (§3.4); helper lemmas: `Proofs/FlowMod.lean`, `Proofs/FlowModRefine.lean`,
-`Proofs/StrictMatch.lean`, `Proofs/Overlap.lean` and C03's `Proofs/FlowTable`, `Proofs/Subsume`, `Proofs/MatchSubsume`.
+Property theorems only.  Model: `Model/FlowMod.lean` (`step`, `run` — `_rx_flow_mod` with its five handlers, the unknown-command
+refusal and the release of a named buffer; `rx_packet`'s table part with the buffering of a miss; the expiry sweep; the
+flow-removed emission; flow / aggregate statistics).  The model mirrors the code in two variants, selected by a constant `Cfg` in
+the state: `Cfg.head` is `/repo` HEAD, `Cfg.repaired` the tree with the three proposed repairs `fixes/C04-1…3*.diff` applied.
+Standard: `Spec/OF10Table.lean` (§4.6 / §4.7 / §5.3.3) on top of `Spec/OF10Match.lean` (§3.4).  Helper lemmas:
+`Proofs/FlowMod.lean`, `Proofs/FlowModRefine.lean`, `Proofs/StrictMatch.lean`, `Proofs/MatchCanon.lean`, `Proofs/Overlap.lean` and
+C03's `Proofs/FlowTable`, `Proofs/Subsume`, `Proofs/MatchSubsume`.
 
-All theorems quantify over every state / every history (no bound on table size, history length, priorities or times).
-`table_sorted`, `removed_once`, `expiry_window`, `clock_inv` are about the model alone and hold without hypotheses.  The refinement
-theorems (`flowmod_refines`, `history_refines`) compare with the standard and need hypotheses on the transmitted matches
-(`MatchOk`).  Each hypothesis that the real code needs is witnessed by a `…_defect` theorem at the end (the harness replays the
-same inputs on the real switch).  D23 (CHECK_OVERLAP tested mutual subsumption) is repaired rather than excluded:
-`overlap_check_exact` is the statement that failed before the repair, `partial_overlap_witness` the input that showed it. -/
+All theorems quantify over every state / every history (no bound on table size, history length, priorities or times) and over
+both code variants.  `table_sorted*`, `no_duplicates`, `removed_once`, `departures_leave`, `expiry_window`, `clock_inv` are about the
+model alone and need no hypothesis.  The refinement to the standard — table, counters, clocks, every message including the
+flow-removed stream — is `history_refines_partial`: it holds for every history whose transmitted matches are *regular* (`WireOk`).
+The unrestricted statement `history_refines_full` is kept next to it; it is false for both variants, and the `…_defect`
+theorems say exactly why: for the repaired variant only because of three open C03 findings about `ofp_match` (D38, D36, D26 — see
+`regular_repaired`), for HEAD also because of C04-1/2/3.  The harness replays every witness on the real switch. -/
 namespace Pox.C04
 open Pox.OF Pox.OF.OfMatch Pox.FlowMod Pox.Spec
 
 /-! ## the table stays sorted -/
 
-/-- Descending effective priority is an invariant of every operation: after every prefix of every history of flow-mods
-    (all five commands, any flags), packet arrivals, clock advances, sweeps and statistics requests, started from the empty
-    table (or any sorted one), the table is sorted.  (`(run s ops).1` is the state after `ops`; every prefix of a history is a
-    history.) -/
+/-- Descending effective priority is an invariant of every operation: after every history of flow-mods (all commands, any flags,
+    any buffer id), packet arrivals, clock advances, sweeps and statistics requests, started from any sorted table, the table is
+    sorted. -/
 theorem table_sorted (s : State) (ops : List Op) (hs : Sorted s.table) : Sorted (run s ops).1.table := run_sorted s ops hs
 
-theorem table_sorted_init (now mx : Nat) (ops : List Op) : Sorted (run (init now mx) ops).1.table :=
+theorem table_sorted_init (cfg : Cfg) (now mx mb : Nat) (ops : List Op) : Sorted (run (init cfg now mx mb) ops).1.table :=
   run_sorted _ ops List.Pairwise.nil
 
+/-- … after every prefix of every history -/
+theorem table_sorted_prefix (cfg : Cfg) (now mx mb : Nat) (ops : List Op) (k : Nat) :
+    Sorted (run (init cfg now mx mb) (ops.take k)).1.table :=
+  table_sorted_init cfg now mx mb (ops.take k)
+
 /-- "An identical match and priority replaces": in every state reachable from the empty table — whatever the history, with no
-    hypothesis on the messages — no two entries have equal match (`ofp_match.__eq__`) and equal priority.  ADD removes the equal
-    entry before inserting; MODIFY only acts as ADD when no entry was selected, and an equal entry would have been. -/
-theorem no_duplicates (now mx : Nat) (ops : List Op) : Uniq (run (init now mx) ops).1.table :=
-  run_uniq _ ops List.Pairwise.nil
+    hypothesis on the messages, in both code variants — no two entries are the same flow for the strict test (`==` at HEAD,
+    mutual encompassing after repair C04-1) with equal priority.  ADD removes such an entry before inserting; MODIFY only acts
+    as ADD when no entry was selected, and such an entry would have been. -/
+theorem no_duplicates (cfg : Cfg) (now mx mb : Nat) (ops : List Op) : Uniq cfg (run (init cfg now mx mb) ops).1.table := by
+  have := run_uniq (init cfg now mx mb) ops List.Pairwise.nil
+  rw [run_cfg] at this
+  exact this
 
 /-! ## flow-removed: exactly once, for exactly the removals the entry asked to hear about -/
 
@@ -45,11 +55,11 @@ theorem no_duplicates (now mx : Nat) (ops : List Op) : Uniq (run (init now mx) o
 2. each departure is an entry of the table before the step, and its reason is the right one: IDLE_TIMEOUT only if the idle
    deadline has passed, HARD_TIMEOUT only if the hard deadline has passed and the idle one has not;
 3. ADD (including the silent replacement of the entry with identical match and priority), MODIFY, MODIFY_STRICT (including
-   modify-acting-as-add), packet arrivals, clock advances and statistics requests produce no flow-removed message at all.
+   modify-acting-as-add), an unknown command, the release of a named buffer, packet arrivals, clock advances and statistics
+   requests produce no flow-removed message at all.
 
 Together with `departures_leave` (the departures are exactly what leaves the table) this is "exactly one message per notifiable
-removal, none otherwise".  This is what the code does; it is also what the standard prescribes (§4.6: a replaced flow is removed
-without notification; §4.7 / §5.4.2), see `history_refines`. -/
+removal, none otherwise". -/
 theorem removed_once (s : State) (op : Op) :
     removals (step s op).2 =
       ((departures s op).filter (fun d => wantsRemoved d.1)).map (fun d => removedMsg s.now d.2 d.1) ∧
@@ -57,8 +67,7 @@ theorem removed_once (s : State) (op : Op) :
       (d.2 = OFPRR_IDLE_TIMEOUT → op = .sweep ∧ idleOut s.now d.1 = true) ∧
       (d.2 = OFPRR_HARD_TIMEOUT → op = .sweep ∧ idleOut s.now d.1 = false ∧ hardOut s.now d.1 = true) ∧
       (d.2 = OFPRR_DELETE → ∃ fm, op = .flowMod fm ∧ (fm.cmd = .delete ∨ fm.cmd = .deleteStrict))) ∧
-    ((∀ fm, op = .flowMod fm → fm.cmd = .add ∨ fm.cmd = .modify ∨ fm.cmd = .modifyStrict) → op ≠ .sweep →
-      removals (step s op).2 = []) := by
+    ((∀ fm, op = .flowMod fm → fm.cmd ≠ .delete ∧ fm.cmd ≠ .deleteStrict) → op ≠ .sweep → removals (step s op).2 = []) := by
   have n01 : OFPRR_IDLE_TIMEOUT ≠ OFPRR_HARD_TIMEOUT := by decide
   have n02 : OFPRR_IDLE_TIMEOUT ≠ OFPRR_DELETE := by decide
   have n12 : OFPRR_HARD_TIMEOUT ≠ OFPRR_DELETE := by decide
@@ -85,7 +94,8 @@ theorem removed_once (s : State) (op : Op) :
     cases op with
     | sweep => exact absurd rfl hsw
     | flowMod fm =>
-      rcases hfm fm rfl with h | h | h <;> simp [departures, h]
+      obtain ⟨h1, h2⟩ := hfm fm rfl
+      cases hc : fm.cmd <;> simp_all [departures]
     | packet p port len => rfl
     | advance dt => rfl
     | flowStats m o => rfl
@@ -111,7 +121,7 @@ theorem departures_leave (s : State) (op : Op)
 3. Every entry of the table after a step is an entry of the table before with unchanged `created`, `last_touched`, counters and
    timeouts (`Kept`) — or the one entry a packet hit, whose `last_touched` becomes `now` and counters grow while `created` stays —
    or the entry a flow-mod just created.  So only traffic refreshes the idle clock and nothing refreshes the hard clock; MODIFY
-   leaves both alone. -/
+   and the release of a buffered packet through a flow-mod leave both (and the counters) alone. -/
 theorem expiry_window (s : State) :
     (∀ e, e ∈ (step s .sweep).1.table ↔
       e ∈ s.table ∧ ¬ (e.data.idle > 0 ∧ e.data.touched + e.data.idle * 1000 < s.now) ∧
@@ -119,14 +129,14 @@ theorem expiry_window (s : State) :
     (∀ op e', e' ∈ (step s op).1.table →
       Kept s e' ∨
       (∃ p inPort len, op = .packet p inPort len ∧ ∃ e ∈ s.table, e.accepts (fromPacket p inPort) = true ∧ e' = touch len s.now e) ∨
-      (∃ fm, op = .flowMod fm ∧ e' = mkEntry s.now fm ∧ fm.flags.testBit FF_EMERG = false)) := by
+      (∃ fm, op = .flowMod fm ∧ e' = mkEntry s.cfg s.now fm ∧ fm.flags.testBit FF_EMERG = false)) := by
   refine ⟨?_, fun op e' h => step_clocks s op e' h⟩
   intro e
   simp only [FlowMod.step, FlowMod.sweep, List.mem_filter, Bool.and_eq_true, Bool.not_eq_true', ← idleOut_iff, ← hardOut_iff,
     Bool.not_eq_true]
 
 /-- `created ≤ last_touched ≤ now` in every reachable state: durations and idle times are never negative -/
-theorem clock_inv (now mx : Nat) (ops : List Op) : ClockOk (run (init now mx) ops).1 := by
+theorem clock_inv (cfg : Cfg) (now mx mb : Nat) (ops : List Op) : ClockOk (run (init cfg now mx mb) ops).1 := by
   suffices h : ∀ (s : State), ClockOk s → ClockOk (run s ops).1 from h _ (fun _ h => by simp [init] at h)
   induction ops with
   | nil => exact fun s h => h
@@ -134,43 +144,113 @@ theorem clock_inv (now mx : Nat) (ops : List Op) : ClockOk (run (init now mx) op
 
 /-! ## refinement to the standard -/
 
-/-- **flowmod_refines** (one step, every operation).  In a state satisfying the invariant (sorted; every entry stems from a regular
-    transmitted match; at most `max_entries` entries), for an event satisfying its hypotheses (`OpOk`: regular match and 16-bit
-    priority in a flow-mod, complete frame without ECN bits, canonical match in a statistics request), the model's step is the
-    standard's step: same table (flows, actions, clocks, counters, order) and same messages.  Covers ADD with replacement and
-    counter reset, CHECK_OVERLAP, table-full, emergency refusals, MODIFY / MODIFY_STRICT including modify-acts-as-add, DELETE /
-    DELETE_STRICT with the `out_port` filter and flow-removed, packet accounting, sweeps, flow and aggregate statistics. -/
-theorem flowmod_refines (s : State) (op : Op) (hi : Inv s) (ho : OpOk op) :
+/-- the standard's table at the start of a history -/
+def specInit (now mx mb : Nat) : STable := { flows := [], now := now, capacity := mx, buffers := { slots := [], max := mb } }
+
+/-- **The full statement**: for EVERY history of flow-mods (any command, flags, out-port filter, buffer id), packet arrivals, clock
+    advances, sweeps and statistics requests, the model's table — flows, actions, clocks, counters, order, stored buffers — equals
+    the standard's table, and everything the switch writes (errors, packet-ins, released buffers, statistics, and the flow-removed
+    stream with reasons, durations and counters) equals what the standard prescribes. -/
+def history_refines_full (cfg : Cfg) : Prop :=
+  ∀ (now mx mb : Nat) (ops : List Op),
+    abs (run (init cfg now mx mb) ops).1 = (Spec.run (specInit now mx mb) ops).1 ∧
+    (run (init cfg now mx mb) ops).2.map (fun os => os.map absOut) = (Spec.run (specInit now mx mb) ops).2
+
+/-- **flowmod_refines_partial** (one step, every operation).  In a state satisfying the invariant (sorted; every entry stems from a
+    regular transmitted match; at most `max_entries` entries), for an event satisfying its hypotheses (`OpOk`: regular match and
+    16-bit priority in a flow-mod, complete frame without ECN bits, regular match in a statistics request), the model's step is the
+    standard's step: same table (flows, actions, clocks, counters, order, buffers) and same messages.  Covers ADD with
+    replacement and counter reset, CHECK_OVERLAP (including address prefixes), table-full, emergency refusals, MODIFY /
+    MODIFY_STRICT including modify-acts-as-add, DELETE / DELETE_STRICT with the `out_port` filter and flow-removed, unknown
+    commands, the buffer named by a flow-mod (released through the flow-mod's actions; BUFFER_UNKNOWN / BUFFER_EMPTY), packet
+    accounting and buffering of a miss, sweeps, flow and aggregate statistics. -/
+theorem flowmod_refines_partial (s : State) (op : Op) (hi : Inv s) (ho : OpOk s.cfg op) :
     abs (step s op).1 = (Spec.step (abs s) op).1 ∧ (step s op).2.map absOut = (Spec.step (abs s) op).2 ∧ Inv (step s op).1 :=
   ⟨(step_refines s op hi ho).1, (step_refines s op hi ho).2, step_inv s op hi ho⟩
 
-/-- **history_refines.**  From the empty table, for every history whose events satisfy their hypotheses in the states they are
-    applied to, the model's table equals the standard's table after the history (hence after every prefix), everything written
-    step by step equals what the standard prescribes, and the invariant holds. -/
-theorem history_refines (now mx : Nat) (ops : List Op) (h : HistOk (init now mx) ops) :
-    abs (run (init now mx) ops).1 = (Spec.run { flows := [], now := now, capacity := mx } ops).1 ∧
-    (run (init now mx) ops).2.map (fun os => os.map absOut) = (Spec.run { flows := [], now := now, capacity := mx } ops).2 ∧
-    Inv (run (init now mx) ops).1 :=
-  run_refines (init now mx) ops (init_inv now mx) h
+/-- **history_refines_partial.**  `history_refines_full` restricted to the histories all of whose events are regular (`HistOk`):
+    from the empty table, the model's table equals the standard's after the history (hence after every prefix), everything
+    written step by step equals what the standard prescribes, and the invariant holds.  Both code variants. -/
+theorem history_refines_partial (cfg : Cfg) (now mx mb : Nat) (ops : List Op) (h : HistOk cfg ops) :
+    abs (run (init cfg now mx mb) ops).1 = (Spec.run (specInit now mx mb) ops).1 ∧
+    (run (init cfg now mx mb) ops).2.map (fun os => os.map absOut) = (Spec.run (specInit now mx mb) ops).2 ∧
+    Inv (run (init cfg now mx mb) ops).1 :=
+  run_refines (init cfg now mx mb) ops (init_inv cfg now mx mb) h
 
-/-- what the code's three match tests mean in the standard's terms, for regular transmitted matches: the non-strict test is
-    subsumption of every 12-tuple, the strict test is "same set of 12-tuples" -/
-theorem selection_meaning (a b : OfMatch) (ha : MatchOk a) (hb : MatchOk b) :
-    (matchesWith true (ofWire a) (ofWire b) = true ↔ ∀ h : Headers, matchHdr b h = true → matchHdr a h = true) ∧
-    (eqMatch (ofWire a) (ofWire b) = true ↔ ∀ h : Headers, matchHdr a h = matchHdr b h) := by
-  rw [subsumes_code a b ha hb, strict_iff a b ha hb]
+/-- what "regular" still means once the three repairs are in: only the clauses that are open C03 findings about `ofp_match`
+    (wildcarded dl_type / nw_proto fields zero on the wire — D38; ToS without ECN bits — D36; a match without any wildcard bit is
+    IPv4 TCP/UDP/ICMP — D26), a priority that fits its 16-bit field, and complete frames -/
+def RegularOp : Op → Prop
+  | .flowMod fm => PrereqExact fm.mtch ∧ fm.mtch.nwTos % 4 = 0 ∧
+      (Spec.exact fm.mtch = true → fm.mtch.dlType = 0x0800 ∧ isL4Proto fm.mtch.nwProto = true) ∧ fm.priority ≤ 0xffff
+  | .packet p _ _ => regular p = true ∧ pktTos p % 4 = 0
+  | .flowStats m _ => PrereqExact m ∧ m.nwTos % 4 = 0
+  | .aggStats m _ => PrereqExact m ∧ m.nwTos % 4 = 0
+  | .advance _ => True
+  | .sweep => True
+
+instance : (op : Op) → Decidable (RegularOp op)
+  | .flowMod fm => inferInstanceAs (Decidable (PrereqExact fm.mtch ∧ fm.mtch.nwTos % 4 = 0 ∧
+      (Spec.exact fm.mtch = true → fm.mtch.dlType = 0x0800 ∧ isL4Proto fm.mtch.nwProto = true) ∧ fm.priority ≤ 0xffff))
+  | .packet p _ _ => inferInstanceAs (Decidable (regular p = true ∧ pktTos p % 4 = 0))
+  | .flowStats m _ => inferInstanceAs (Decidable (PrereqExact m ∧ m.nwTos % 4 = 0))
+  | .aggStats m _ => inferInstanceAs (Decidable (PrereqExact m ∧ m.nwTos % 4 = 0))
+  | .advance _ => isTrue trivial
+  | .sweep => isTrue trivial
+
+theorem regular_repaired (op : Op) (h : RegularOp op) : OpOk Cfg.repaired op := by
+  have t1 : Cfg.repaired.maskUndefined ≠ false := by decide
+  have t2 : Cfg.repaired.strictMutual ≠ false := by decide
+  have t3 : Cfg.repaired.statsUnwire ≠ false := by decide
+  cases op with
+  | flowMod fm =>
+    obtain ⟨a, b, c, d⟩ := h
+    exact { mok := { prereq := a, tos := b, exactL4 := c, width := fun h => absurd h t1, hostSrc := fun h => absurd h t2,
+                     hostDst := fun h => absurd h t2 },
+            prio := d }
+  | packet p port len => exact h
+  | flowStats m o => exact { prereq := h.1, tos := h.2, canon := fun h => absurd h t3 }
+  | aggStats m o => exact { prereq := h.1, tos := h.2, canon := fun h => absurd h t3 }
+  | advance dt => trivial
+  | sweep => trivial
+
+/-- with the three repairs, the refinement holds for every history outside C03's open findings: address bits below the prefix,
+    undefined wildcard bits and un-normalised statistics requests are all handled as the standard says -/
+theorem history_refines_repaired (now mx mb : Nat) (ops : List Op) (h : ∀ op ∈ ops, RegularOp op) :
+    abs (run (init Cfg.repaired now mx mb) ops).1 = (Spec.run (specInit now mx mb) ops).1 ∧
+    (run (init Cfg.repaired now mx mb) ops).2.map (fun os => os.map absOut) = (Spec.run (specInit now mx mb) ops).2 :=
+  let r := history_refines_partial Cfg.repaired now mx mb ops (fun op hm => regular_repaired op (h op hm))
+  ⟨r.1, r.2.1⟩
+
+def SOut.isRemoved : SOut → Bool
+  | .flowRemoved _ => true
+  | _ => false
+
+/-- the notification stream: over a whole regular history the flow-removed messages the switch writes are, in order, exactly
+    those of the standard — match, cookie, priority, reason, duration, idle timeout, packet and byte counts -/
+theorem removed_stream_refines (cfg : Cfg) (now mx mb : Nat) (ops : List Op) (h : HistOk cfg ops) :
+    (((run (init cfg now mx mb) ops).2.flatten).map absOut).filter SOut.isRemoved =
+      ((Spec.run (specInit now mx mb) ops).2.flatten).filter SOut.isRemoved := by
+  rw [← (history_refines_partial cfg now mx mb ops h).2.1, List.map_flatten]
+
+/-- what the code's match tests mean in the standard's terms, for regular transmitted matches and both code variants: the
+    non-strict test is subsumption of every 12-tuple, the strict test is "same set of 12-tuples" -/
+theorem selection_meaning (cfg : Cfg) (a b : OfMatch) (ha : WireOk cfg a) (hb : WireOk cfg b) :
+    (matchesWith true (rxMatch cfg a) (rxMatch cfg b) = true ↔ ∀ h : Headers, matchHdr b h = true → matchHdr a h = true) ∧
+    (strictMatch cfg (rxMatch cfg a) (rxMatch cfg b) = true ↔ ∀ h : Headers, matchHdr a h = matchHdr b h) := by
+  rw [rx_subsumes cfg a b ha hb, rx_strict cfg a b ha hb]
   exact ⟨subsumes_forall a b, identical_iff a b⟩
 
 /-- the standard's overlap relation used by `Spec.add` is "a single packet may match both" -/
 theorem overlap_meaning (a b : OfMatch) : overlaps a b = true ↔ ∃ h : Headers, matchHdr a h = true ∧ matchHdr b h = true :=
   overlaps_iff_exists a b
 
-/-- **D23, repaired.**  `check_for_overlapping_entry` answers exactly as the standard prescribes: for a regular flow-mod it
-    reports an overlap iff some installed flow of the new flow's rank (exact flows above all priorities) can be matched by a
-    packet that also matches the new flow.  (Before the repair the code tested whether one match encompasses the other and
-    this statement was false: `partial_overlap_witness`.) -/
-theorem overlap_check_exact (s : State) (fm : FlowModMsg) (hi : Inv s) (hm : MsgOk fm) (he : fm.flags.testBit FF_EMERG = false) :
-    overlapScan (mkEntry s.now fm).effectivePriority (ofWire fm.mtch) s.table = true ↔
+/-- **D23 (fixed in `/repo`, c244d60).**  `check_for_overlapping_entry` answers exactly as the standard prescribes: for a regular
+    flow-mod it reports an overlap iff some installed flow of the new flow's rank (exact flows above all priorities) can be
+    matched by a packet that also matches the new flow — including flows that overlap only partially (`partial_overlap_witness`,
+    `cidr_overlap_witness`). -/
+theorem overlap_check_exact (s : State) (fm : FlowModMsg) (hi : Inv s) (hm : MsgOk s.cfg fm) (he : fm.flags.testBit FF_EMERG = false) :
+    overlapScan (mkEntry s.cfg s.now fm).effectivePriority (rxMatch s.cfg fm.mtch) s.table = true ↔
       ∃ e ∈ s.table, (absEntry e).rank = (newFlow s.now fm).rank ∧
         ∃ h : Headers, matchHdr e.data.wire h = true ∧ matchHdr fm.mtch h = true := by
   rw [overlap_abs s fm hi hm he]
@@ -193,104 +273,153 @@ def mIp : OfMatch := { zeroMatch with wildcards := wc [.dlType] 32 32, dlType :=
 /-- the same flow as `mIp`, encoded with the (ignored) tp_src bit clear -/
 def mIpB : OfMatch := { zeroMatch with wildcards := wc [.dlType, .tpSrc] 32 32, dlType := 0x0800 }
 def mNet8 : OfMatch := { zeroMatch with wildcards := wc [.dlType] 24 32, dlType := 0x0800, nwSrc := 0x0a000000 }
+/-- `nw_dst = 10.2.0.0/16`: overlaps `mNet8` (a packet 10.x → 10.2.y), neither contains the other -/
+def mDst16 : OfMatch := { zeroMatch with wildcards := wc [.dlType] 32 16, dlType := 0x0800, nwDst := 0x0a020000 }
+/-- `nw_src = 11.0.0.0/8`: disjoint from `mNet8` -/
+def mNet8o : OfMatch := { zeroMatch with wildcards := wc [.dlType] 24 32, dlType := 0x0800, nwSrc := 0x0b000000 }
 def mTcp80 : OfMatch := { zeroMatch with wildcards := wc [.dlType, .nwProto, .tpDst] 32 32, dlType := 0x0800, nwProto := 6, tpDst := 80 }
 def mArp : OfMatch := { zeroMatch with wildcards := wc [.dlType] 32 32, dlType := 0x0806 }
 
 /-- 10.1.1.1:1000 → 10.2.2.2:80 TCP, untagged -/
 def tcpFrame : PHdr :=
   { src := 1, dst := 2, typ := 0x0800, llc := none, vlan := none, l3 := .ipv4 0x0a010101 0x0a020202 6 0 false (.ports 1000 80) }
+/-- an ARP request -/
+def arpFrame : PHdr :=
+  { src := 1, dst := 2, typ := 0x0806, llc := none, vlan := none, l3 := .arp 1 0x0a000001 0x0a000002 }
 
 def fmsg (cmd : Cmd) (m : OfMatch) (prio flags cookie : Nat) (idle hard : Nat := 0) (outPort : Nat := OFPP_NONE)
-    (acts : List Action := [.output 2 0]) : Op :=
+    (acts : List Action := [.output 2 0]) (buf : Option Nat := none) : Op :=
   .flowMod { cmd := cmd, mtch := m, cookie := cookie, idle := idle, hard := hard, priority := prio, outPort := outPort, flags := flags,
-             actions := acts }
+             actions := acts, bufferId := buf }
 
-/-- a history that uses every command, both flags, the `out_port` filter, traffic, the clock and sweeps -/
+/-- a history that uses every command, both flags, the `out_port` filter, buffers, traffic, the clock and sweeps -/
 def demo : List Op :=
-  [ fmsg .add mIp 100 1 1 (idle := 1) (hard := 5),                 -- SEND_FLOW_REM, idle 1 s
+  [ .packet arpFrame 3 60,                                         -- miss: stored as buffer 1, packet-in
+    fmsg .add mIp 100 1 1 (idle := 1) (hard := 5),                 -- SEND_FLOW_REM, idle 1 s
     fmsg .add mNet8 100 3 2 (acts := [.output 3 0]),               -- CHECK_OVERLAP|SEND_FLOW_REM: refused, overlaps (is inside) mIp
     fmsg .add mNet8 200 3 3 (acts := [.output 3 0]),               -- other priority: accepted
-    fmsg .add mArp 100 2 4,                                        -- CHECK_OVERLAP: disjoint from mIp, accepted
+    fmsg .add mArp 100 2 4 (buf := some 1),                        -- CHECK_OVERLAP: disjoint from mIp, accepted; releases buffer 1
     .packet tcpFrame 1 74,                                         -- hits mNet8 (priority 200)
-    fmsg .modify mIp 7 0 5 (acts := []),                           -- non-strict: rewrites mIp and mNet8
+    fmsg .modify mIp 7 0 5 (acts := []) (buf := some 1),           -- non-strict: rewrites mIp and mNet8; buffer 1 already used
     fmsg .modifyStrict mTcp80 7 1 6 (hard := 1),                   -- nothing identical: acts as ADD
     fmsg .add mIpB 100 0 7,                                        -- identical to mIp (other encoding): replaces it silently
     .advance 1125, .sweep,                                         -- mTcp80 hard-expires (flow-removed, reason 1)
-    fmsg .delete mAll 0 0 8 (outPort := 3),                        -- out_port filter: nothing outputs to 3 any more
-    fmsg .deleteStrict mNet8 200 0 9,                              -- flow-removed, reason 2, with the packet counted
+    fmsg .delete mAll 0 0 8 (outPort := 3) (buf := some 9),        -- out_port filter: nothing outputs to 3 any more; no buffer 9
+    fmsg (.unknown 7) mAll 0 0 9 (buf := some 1),                  -- BAD_COMMAND, nothing else
+    fmsg .deleteStrict mNet8 200 0 10,                             -- flow-removed, reason 2, with the packet counted
     .aggStats mAll OFPP_NONE ]
 
--- the hypotheses of `history_refines` hold for `demo` …
-example : HistOk (init 1000000 100) demo := by decide
--- … the history is not trivial: an overlap refusal, a hard-timeout and a delete notification, the aggregate of what is left
-example : (run (init 1000000 100) demo).2.map (fun os => os.map absOut) =
-    [[], [.error 3 1], [], [], [], [], [], [], [], [.flowRemoved ⟨mTcp80, 6, 7, 1, 1, 125000000, 0, 0, 0⟩], [],
+-- the hypotheses of `history_refines_partial` hold for `demo`, in both variants …
+example : HistOk Cfg.head demo ∧ HistOk Cfg.repaired demo ∧ ∀ op ∈ demo, RegularOp op := by decide
+-- … the history is not trivial: packet-in with buffer id, overlap refusal, release of the buffer, BUFFER_EMPTY / BUFFER_UNKNOWN,
+-- hard-timeout and delete notifications, BAD_COMMAND, the aggregate of what is left — the same in both variants
+example : ∀ cfg ∈ [Cfg.head, Cfg.repaired], (run (init cfg 1000000 100 4) demo).2.map (fun os => os.map absOut) =
+    [[.packetIn 3 (some 1)], [], [.error 3 1], [], [.release 1 ⟨arpFrame, 60, 3⟩ [.output 2 0]], [], [.error 1 7], [], [], [],
+     [.flowRemoved ⟨mTcp80, 6, 7, 1, 1, 125000000, 0, 0, 0⟩], [.error 1 8], [.error 3 4],
      [.flowRemoved ⟨mNet8, 3, 200, 2, 1, 125000000, 0, 1, 74⟩], [.aggStats 0 0 2]] := by decide
-example : (run (init 1000000 100) demo).1.table.map (fun e => (e.data.cookie, e.priority, e.data.actions)) =
+example : (run (init Cfg.head 1000000 100 4) demo).1.table.map (fun e => (e.data.cookie, e.priority, e.data.actions)) =
     [(7, 100, [.output 2 0]), (4, 100, [.output 2 0])] := by decide
--- `removed_once` / `expiry_window`: a state with departures of both kinds and an entry that stays
-example : (departures (run (init 1000000 100) (demo.take 9)).1 .sweep).map (fun d => (d.1.data.cookie, d.2)) = [(6, 1)] ∧
-    (run (init 1000000 100) (demo.take 9)).1.table.length = 4 := by decide
+-- `removed_once` / `expiry_window`: a state with departures and entries that stay
+example : (departures (run (init Cfg.head 1000000 100 4) (demo.take 10)).1 .sweep).map (fun d => (d.1.data.cookie, d.2)) = [(6, 1)] ∧
+    (run (init Cfg.head 1000000 100 4) (demo.take 10)).1.table.length = 4 := by decide
 -- `no_duplicates`: the replacement in `demo` (cookie 7 took the place of cookie 1, same flow in another encoding)
-example : sameKey (mkEntry 0 ⟨.add, mIp, 1, 0, 0, 100, OFPP_NONE, 0, []⟩) (mkEntry 5 ⟨.add, mIpB, 7, 0, 0, 100, OFPP_NONE, 0, []⟩) = true := by
-  decide
--- `selection_meaning` / `MatchOk`: regular matches, both outcomes
-example : MatchOk mNet8 ∧ MatchOk mIp ∧ MatchOk mIpB ∧ MatchOk mTcp80 := by decide
+example : ∀ cfg ∈ [Cfg.head, Cfg.repaired],
+    sameKey cfg (mkEntry cfg 0 ⟨.add, mIp, 1, 0, 0, 100, OFPP_NONE, 0, [], none⟩)
+      (mkEntry cfg 5 ⟨.add, mIpB, 7, 0, 0, 100, OFPP_NONE, 0, [], none⟩) = true := by decide
+-- `selection_meaning` / `WireOk`: regular matches, both outcomes
+example : WireOk Cfg.head mNet8 ∧ WireOk Cfg.head mIp ∧ WireOk Cfg.head mIpB ∧ WireOk Cfg.repaired mTcp80 := by decide
 example : matchesWith true (ofWire mIp) (ofWire mNet8) = true ∧ matchesWith true (ofWire mNet8) (ofWire mIp) = false ∧
     eqMatch (ofWire mIp) (ofWire mIpB) = true ∧ eqMatch (ofWire mIp) (ofWire mNet8) = false := by decide
 
-/-! ### what the hypotheses exclude (open findings; the harness replays the same inputs on the real switch) -/
+/-! ### CHECK_OVERLAP on partially overlapping flows (D23, fixed) -/
 
-/-- **D23** (repaired; kept as the regression input the harness replays).  `in_port=1` and `dl_type=0x0800`, same priority, both
-    with `OFPFF_CHECK_OVERLAP`: an IPv4 frame arriving on port 1 matches both although neither description subsumes the other —
-    the mutual-subsumption test of the unrepaired code accepted the second ADD.  Standard and (repaired) model refuse it with
-    `OFPFMFC_OVERLAP`. -/
+/-- `in_port=1` and `dl_type=0x0800`, same priority, both with `OFPFF_CHECK_OVERLAP`: an IPv4 frame arriving on port 1 matches
+    both although neither description subsumes the other — the mutual-subsumption test of the code before the fix accepted the
+    second ADD.  Standard and model refuse it with `OFPFMFC_OVERLAP`. -/
 theorem partial_overlap_witness :
     let ops := [fmsg .add mInPort1 100 2 1, fmsg .add mIp 100 2 2]
-    HistOk (init 0 100) ops ∧
+    HistOk Cfg.head ops ∧
     matchHdr mInPort1 (headers tcpFrame 1) = true ∧ matchHdr mIp (headers tcpFrame 1) = true ∧
     subsumes mInPort1 mIp = false ∧ subsumes mIp mInPort1 = false ∧
-    (run (init 0 100) ops).1.table.map (·.data.cookie) = [1] ∧
-    (run (init 0 100) ops).2 = [[], [.error OFPET_FLOW_MOD_FAILED OFPFMFC_OVERLAP]] ∧
-    (Spec.run { flows := [], now := 0, capacity := 100 } ops).2 = [[], [.error OFPET_FLOW_MOD_FAILED OFPFMFC_OVERLAP]] := by decide
+    (run (init Cfg.head 0 100 4) ops).1.table.map (·.data.cookie) = [1] ∧
+    (run (init Cfg.head 0 100 4) ops).2 = [[], [.error OFPET_FLOW_MOD_FAILED OFPFMFC_OVERLAP]] ∧
+    (Spec.run (specInit 0 100 4) ops).2 = [[], [.error OFPET_FLOW_MOD_FAILED OFPFMFC_OVERLAP]] := by decide
+
+/-- address prefixes: `nw_src=10/8` and `nw_dst=10.2/16` overlap without containment (refused); `nw_src=10/8` and `nw_src=11/8` are
+    disjoint (accepted) -/
+theorem cidr_overlap_witness :
+    let ops := [fmsg .add mNet8 100 2 1, fmsg .add mDst16 100 2 2, fmsg .add mNet8o 100 2 3]
+    HistOk Cfg.head ops ∧ overlaps mNet8 mDst16 = true ∧ subsumes mNet8 mDst16 = false ∧ subsumes mDst16 mNet8 = false ∧
+    overlaps mNet8 mNet8o = false ∧
+    (run (init Cfg.head 0 100 4) ops).1.table.map (·.data.cookie) = [3, 1] ∧
+    (run (init Cfg.head 0 100 4) ops).2 = [[], [.error OFPET_FLOW_MOD_FAILED OFPFMFC_OVERLAP], []] := by decide
+
+/-! ### what the hypotheses exclude (open findings; the harness replays the same inputs on the real switch) -/
 
 /-- 10.9.9.9/8 and 10.1.1.1/8: the same flow (only the 8 prefix bits are compared), written with different host bits -/
 def mNet8a : OfMatch := { mNet8 with nwSrc := 0x0a090909 }
 def mNet8b : OfMatch := { mNet8 with nwSrc := 0x0a010101 }
 
-/-- **C04-1** — `ofp_match.__eq__` compares the address fields unmasked.  Two ADDs of the same flow (`nw_src=10.x.x.x/8`,
+/-- **C04-1** — at HEAD `ofp_match.__eq__` compares the address fields unmasked.  Two ADDs of the same flow (`nw_src=10.x.x.x/8`,
     same priority) whose address fields differ below the prefix length do not replace each other: the table ends with two
     entries where the standard has one (and DELETE_STRICT / MODIFY_STRICT miss the flow in the same way).  The matches denote the
-    same set of packets (`identical`); of `MatchOk` only the no-host-bits clause fails. -/
+    same set of packets (`identical`); of `WireOk Cfg.head` only the no-host-bits clause fails.  With the repair
+    (`fixes/C04-1_strict_match_same_packets.diff`: strict = each match encompasses the other) the input is regular and the
+    second ADD replaces the first. -/
 theorem strict_hostbits_defect :
     let ops := [fmsg .add mNet8a 100 0 1, fmsg .add mNet8b 100 0 2]
-    identical mNet8a mNet8b = true ∧ PrereqExact mNet8a ∧ mNet8a.wildcards < 2 ^ 22 ∧ ¬ MatchOk mNet8a ∧
-    (run (init 0 100) ops).1.table.map (·.data.cookie) = [2, 1] ∧
-    (Spec.run { flows := [], now := 0, capacity := 100 } ops).1.flows.map (·.cookie) = [2] := by decide
+    identical mNet8a mNet8b = true ∧ PrereqExact mNet8a ∧ mNet8a.wildcards < 2 ^ 22 ∧ ¬ WireOk Cfg.head mNet8a ∧
+    (run (init Cfg.head 0 100 4) ops).1.table.map (·.data.cookie) = [2, 1] ∧
+    (Spec.run (specInit 0 100 4) ops).1.flows.map (·.cookie) = [2] ∧
+    HistOk Cfg.repaired ops ∧ (run (init Cfg.repaired 0 100 4) ops).1.table.map (·.data.cookie) = [2] := by decide
 
 /-- "all wildcards" written as `0xffffffff` (bits 22..31 are undefined in OpenFlow 1.0) -/
 def mAllHi : OfMatch := { zeroMatch with wildcards := 0xffffffff }
 
-/-- **C04-2** — the undefined bits 22..31 of the wildcard word are kept and compared.  A match-all flow installed with
+/-- **C04-2** — at HEAD the undefined bits 22..31 of the wildcard word are kept and compared.  A match-all flow installed with
     `wildcards = 0xffffffff` survives `DELETE` with the match-all `OFPFW_ALL` (0x3fffff): the code requires the entry's wildcard
-    flags to be a subset of the request's.  In the standard both words denote every packet, and the delete empties the table. -/
+    flags to be a subset of the request's.  In the standard both words denote every packet, and the delete empties the table.
+    With the repair (`fixes/C04-2_flow_mod_undefined_wildcard_bits.diff`: `_rx_flow_mod` drops the undefined bits) it does. -/
 theorem undefined_bits_defect :
     let ops := [fmsg .add mAllHi 100 0 1, fmsg .delete mAll 0 0 2]
-    subsumes mAll mAllHi = true ∧ PrereqExact mAllHi ∧ ¬ MatchOk mAllHi ∧
-    (run (init 0 100) ops).1.table.map (·.data.cookie) = [1] ∧
-    (Spec.run { flows := [], now := 0, capacity := 100 } ops).1.flows = [] := by decide
+    subsumes mAll mAllHi = true ∧ PrereqExact mAllHi ∧ ¬ WireOk Cfg.head mAllHi ∧
+    (run (init Cfg.head 0 100 4) ops).1.table.map (·.data.cookie) = [1] ∧
+    (Spec.run (specInit 0 100 4) ops).1.flows = [] ∧
+    HistOk Cfg.repaired ops ∧ (run (init Cfg.repaired 0 100 4) ops).1.table = [] := by decide
 
 /-- an ARP description whose (ignored) tp_src bit is clear, as a controller that only sets the bits it cares about sends it -/
 def mArpQ : OfMatch := { zeroMatch with wildcards := wc [.dlType, .tpSrc] 32 32, dlType := 0x0806 }
 
-/-- **C04-3** — statistics requests decode their match without the flow-mod normalisation (`unpack(flow_mod=False)`), so a field
-    the standard ignores (tp_src of an ARP description) but that is not wildcarded makes the request select nothing: aggregate
-    statistics for "all ARP flows" report 0 flows with one ARP flow installed.  The description is regular (`MatchOk`) and the
-    standard counts the flow; the hypothesis `ofWirePlain m = ofWire m` of `OpOk` is what fails. -/
+/-- **C04-3** — at HEAD statistics requests use their match as decoded by `unpack(flow_mod=False)`, so a field the standard ignores
+    (tp_src of an ARP description) but that is not wildcarded makes the request select nothing: aggregate statistics for "all ARP
+    flows" report 0 flows with one ARP flow installed.  The standard counts the flow; of `StatsOk Cfg.head` the clause
+    `ofWirePlain m = ofWire m` fails.  With the repair (`fixes/C04-3_stats_request_match_unwired.diff`) the flow is counted. -/
 theorem stats_unwired_defect :
     let ops := [fmsg .add mArp 100 0 1, .aggStats mArpQ OFPP_NONE]
-    MatchOk mArpQ ∧ subsumes mArpQ mArp = true ∧ ofWirePlain mArpQ ≠ ofWire mArpQ ∧
-    (run (init 0 100) ops).2 = [[], [.aggStats 0 0 0]] ∧
-    (Spec.run { flows := [], now := 0, capacity := 100 } ops).2 = [[], [.aggStats 0 0 1]] := by decide
+    subsumes mArpQ mArp = true ∧ ofWirePlain mArpQ ≠ ofWire mArpQ ∧ ¬ StatsOk Cfg.head mArpQ ∧
+    (run (init Cfg.head 0 100 4) ops).2 = [[], [.aggStats 0 0 0]] ∧
+    (Spec.run (specInit 0 100 4) ops).2 = [[], [.aggStats 0 0 1]] ∧
+    HistOk Cfg.repaired ops ∧ (run (init Cfg.repaired 0 100 4) ops).2 = [[], [.aggStats 0 0 1]] := by decide
+
+/-- the unrestricted statement fails at HEAD (C04-1's input) … -/
+theorem history_refines_full_defect_head : ¬ history_refines_full Cfg.head := by
+  intro h
+  have := congrArg (fun t : STable => t.flows.map (·.cookie)) (h 0 100 4 [fmsg .add mNet8a 100 0 1, fmsg .add mNet8b 100 0 2]).1
+  revert this
+  decide
+
+/-- the exact-match description of an ARP request (no wildcard bit): the class of D26 -/
+def mArpExact : OfMatch :=
+  { wildcards := 0, inPort := 1, dlSrc := 1, dlDst := 2, dlVlan := 0xffff, dlVlanPcp := 0, dlType := 0x0806, nwTos := 0, nwProto := 1,
+    nwSrc := 0x0a000001, nwDst := 0x0a000002, tpSrc := 0, tpDst := 0 }
+
+/-- … and, after the three repairs, still fails on inputs of C03's open finding D26 (an exact-match flow that is not IPv4
+    TCP/UDP/ICMP is not ranked above the wildcarded ones: the table order differs from the standard's).  This is why
+    `history_refines_repaired` keeps the `RegularOp` hypothesis. -/
+theorem history_refines_full_defect_repaired : ¬ history_refines_full Cfg.repaired := by
+  intro h
+  have := congrArg (fun t : STable => t.flows.map (·.cookie)) (h 0 100 4 [fmsg .add mArpExact 1 0 1, fmsg .add mInPort1 100 0 2]).1
+  revert this
+  decide
 
 end Pox.C04
